@@ -43,7 +43,7 @@ static int ref_allowed(const char *a)
   const char *at = strrchr(a, '@');
   if (!cf_rcpthosts) return 1;
   if (!at) return 1;
-  if (list_allows(RH, 3, at + 1)) return 1;
+  if (cf_rcpthosts == 1 && list_allows(RH, 3, at + 1)) return 1;
   if (cf_more == 2) return -1;   /* the compiled extra list cannot be read: neither allowed nor refused -- the server must give up (421) */
   if (cf_more && list_allows(MRH, 2, at + 1)) return 1;
   return 0;
@@ -212,13 +212,15 @@ int main(int argc, char **argv)
   if (argc < 4) return 2;
   if (chdir(argv[1]) == -1) return 2;
   cfg = atoi(argv[2]); maxdepth = atoi(argv[3]);
-  if (cfg >= 72) { cfg -= 72; cf_rcpthosts = 1; cf_more = 2; }   /* morercpthosts.cdb present but unreadable (truncated) */
+  if (cfg >= 90) { cfg -= 90; cf_rcpthosts = 2; cf_more = 1; }   /* control/rcpthosts present without a single entry (comment and blank line): every host is refused unless the extra list has it */
+  else if (cfg >= 72) { cfg -= 72; cf_rcpthosts = 1; cf_more = 2; }   /* morercpthosts.cdb present but unreadable (truncated) */
   else { cf_rcpthosts = cfg % 2; cfg /= 2; cf_more = cfg % 2; cfg /= 2; }
   cf_bmf = cfg % 3; cfg /= 3; cf_liph = cfg % 2; cfg /= 2;
   cf_relay = cfg % 3 == 0 ? 0 : cfg % 3 == 1 ? "" : "@gw.example";
   mkdir("control", 0755);
   { FILE *f = fopen("control/me", "w"); fprintf(f, "mx.example\n"); fclose(f); }
-  if (cf_rcpthosts) { FILE *f = fopen("control/rcpthosts", "w"); for (i = 0; i < 3; i++) fprintf(f, "%s\n", RH[i]); fclose(f); }
+  if (cf_rcpthosts == 1) { FILE *f = fopen("control/rcpthosts", "w"); for (i = 0; i < 3; i++) fprintf(f, "%s\n", RH[i]); fclose(f); }
+  if (cf_rcpthosts == 2) { FILE *f = fopen("control/rcpthosts", "w"); fprintf(f, "# no host is listed\n\n"); fclose(f); }
   if (cf_more) {   /* the same writer code as qmail-newmrh: lower-cased keys, empty data */
     struct cdbmss c; int fd = open("control/morercpthosts.cdb", O_WRONLY | O_CREAT | O_TRUNC, 0644);
     if (fd < 0 || cdbmss_start(&c, fd) == -1) return 2;
